@@ -176,7 +176,8 @@ func (z *reader) Reset(r io.Reader, dict []byte) error {
 			z.decompressor = flate.NewReader(z.r)
 		}
 	} else {
-		z.decompressor.(flate.Resetter).Reset(z.r, dict)
+		// the stream does not refer to a dictionary: NewReaderDict ignores dict for such a stream, so does Reset
+		z.decompressor.(flate.Resetter).Reset(z.r, nil)
 	}
 	z.digest = adler32.New()
 	return nil
